@@ -56,6 +56,10 @@ type internalAppReference struct {
 
 type internalApp struct {
 	id uint8
+	// precedence of the PDR the applications entry was installed for. The entry's priority derives
+	// from it, and the entry can only be deleted under the priority it was inserted with - also
+	// when the last user of the filter has another precedence.
+	precedence uint32
 	// usedBy keeps track of <F-SEID (UE session); PDR-ID> pairs using this application filter.
 	usedBy set.Set
 }
@@ -822,7 +826,8 @@ func (up4 *UP4) addInternalApplicationIDAndGetP4rtEntry(pdr pdr) (*p4.TableEntry
 	}
 
 	up4Application := internalApp{
-		id: newAppID,
+		id:         newAppID,
+		precedence: pdr.precedence,
 		usedBy: set.NewSet(internalAppReference{
 			pdr.fseID, pdr.pdrID,
 		}),
@@ -861,6 +866,8 @@ func (up4 *UP4) removeInternalApplicationIDAndGetP4rtEntry(pdr pdr) (*p4.TableEn
 	if internalApp.usedBy.Cardinality() > 1 || !internalApp.usedBy.Contains(ref) {
 		return nil, internalApp.id
 	}
+
+	pdr.precedence = internalApp.precedence
 
 	applicationsEntry, err := up4.p4RtTranslator.BuildApplicationsTableEntry(pdr, up4.conf.SliceID, internalApp.id)
 	if err != nil {
